@@ -48,6 +48,13 @@ def make_judges(ctx):
                 sample = {'op': ev.op, 'role': role, 'object': s.describe(), 'n_int': s.n_int, 'upper': repr(s.upper), 'lower': repr(s.lower), 'precision': repr(s.precision)}
             ctx.judged(key, nontriv, sample, elements=len(s.codes))
 
+    def getitem_judge(ev):
+        for tag, detail in U.getitem_problems(ev):
+            ctx.violation('U1_' + tag, detail, ev, key='u1.%s' % tag)
+        if ev.op == '__getitem__' and ev.exc is None and ev.pre and ev.pre[0] is not None and ev.pre[0].n_word >= 64 and ev.result_snap is not None \
+                and len(ev.result_snap.shape) == 0 and len(ev.pre[0].shape) > 0:
+            ctx.floor_hit(('element-of-wide-array',))
+
     def saturation_judge(ev):
         if ev.op not in STORE_OPS or ev.exc is not None and False:
             return
@@ -86,7 +93,7 @@ def make_judges(ctx):
         ctx.floor_hit(('saturate', kind, mag))
         if si.raw:
             ctx.floor_hit(('saturate-raw', mag))
-    return [wellformed_judge, saturation_judge]
+    return [wellformed_judge, saturation_judge, getitem_judge]
 
 
 def _short(v):
@@ -99,7 +106,7 @@ def _is_float(c):
 
 
 def floors(tier):
-    return [('saturate', 'int', 'huge'), ('saturate', 'float', 'huge'), ('saturate', 'int', 'moderate'), ('saturate', 'float', 'moderate'), ('saturate-raw', 'huge'), ('saturate-raw', 'moderate')]
+    return [('saturate', 'int', 'huge'), ('saturate', 'float', 'huge'), ('saturate', 'int', 'moderate'), ('saturate', 'float', 'moderate'), ('saturate-raw', 'huge'), ('saturate-raw', 'moderate'), ('element-of-wide-array',)]
 
 
 # ------------------------------------------------------------------------------------------ workload
@@ -110,6 +117,8 @@ def cases(tier, seed):
     n = 600 if tier == 'quick' else 12000
     for i in range(n):
         yield {'k': 'sat', 'i': i}
+    for j in range(48 if tier == 'quick' else 1200):
+        yield {'k': 'wideidx', 'i': j}
     # words of 53..63 bits (reachable as results of operations on core-domain operands): float arrays saturating at limits
     # that are not exact in float64
     for w in range(53, 64):
@@ -125,6 +134,44 @@ def _try(f):
         return None
 
 
+def run_wideidx(case, ctx):
+    """elements taken out of arrays of 64 and more bits (x[i], x[i][j], x[i, j], iteration) are objects like any other: they are produced
+    well-formed and can be used (unary, bitwise, arithmetic, strings, conversions, written back)"""
+    Fxp = ctx.mon.Fxp
+    i = case['i']
+    rng = ctx.rng_for('wideidx', i)
+    w = (64, 65, 72, 100, 128, 200)[i % 6]
+    s = bool((i // 6) % 2)
+    nf = rng.choice([0, 0, 1, w // 2, w])
+    lo, hi = R.code_range(s, w)
+    cs = [rng.choice([lo, hi, 0, 1, hi - 1, rng.randint(lo, hi), rng.randint(lo, hi) >> rng.randint(0, w - 1)]) for _ in range(4)]
+    x1 = Fxp(None, s, w, nf)
+    x1.set_val(np.array(cs[:3], dtype=object), raw=True)
+    x2 = Fxp(None, s, w, nf)
+    x2.set_val(np.array(cs, dtype=object).reshape(2, 2), raw=True)
+    els = [_try(lambda: x1[0]), _try(lambda: x1[-1]), _try(lambda: x1[np.int64(1)]), _try(lambda: x2[1][0]), _try(lambda: x2[0, 1]), _try(lambda: x2[1])]
+    _try(lambda: [e for e in x1])
+    for e in els:
+        if e is None:
+            continue
+        _try(lambda: e.dtype)
+        _try(lambda: e.get_dtype('Q'))
+        _try(lambda: ~e)
+        _try(lambda: e & 3)
+        _try(lambda: e | e)
+        _try(lambda: e.bin())
+        _try(lambda: e.hex())
+        _try(lambda: -e)
+        _try(lambda: e + e)
+        _try(lambda: e * 2)
+        _try(lambda: e >> 1)
+        _try(lambda: Fxp(e))
+        _try(lambda: e.deepcopy().resize(s, w + 8, nf))
+        _try(lambda: e.raw())
+    _try(lambda: x1.__setitem__(0, x1[1]))
+    _try(lambda: x2.__setitem__((0, 0), x2[1, 1]))
+
+
 SIZINGS = ['optimal', 'same', 'largest', 'smallest', 'fit']
 
 
@@ -133,6 +180,8 @@ def run_case(case, ctx):
     fm = ctx.mon.fxpmath
     rng = ctx.rng_for(case['k'], case['i'])
     i = case['i']
+    if case['k'] == 'wideidx':
+        return run_wideidx(case, ctx)
     if case['k'] == 'satwide':
         w, s = case['n_word'], case['signed']
         nf = rng.choice([0, 0, 1, w // 2, w])
